@@ -191,9 +191,15 @@ from kskm.misc.hsm import init_pkcs11_modules
 from kskm.signer import create_skr
 
 
+NOTATIONS = ["days", "weeks", "hours", "seconds", "days-hours", "minutes"]
+NOTE_I = [0]
+
+
 def tool_skr(req, schema, ps, rs):
+    NOTE_I[0] += 1
+    nt = NOTATIONS[NOTE_I[0] % len(NOTATIONS)]          # the operator may write a period in any ISO 8601 notation: P11D = P1W4D = PT264H
     cfg = ceremony.make_config({n: ceremony.ksk_def(k) for n, k in KSKS.items()}, {"s": {i: {k: v for k, v in a.items() if v} for i, a in schema.items()}},
-                               ksk_policy={"publish_safety": ksrxml.fmt_dur(ps), "retire_safety": ksrxml.fmt_dur(rs), "max_signature_validity": "P21D",
+                               ksk_policy={"publish_safety": ksrxml.fmt_dur_as(ps, nt), "retire_safety": ksrxml.fmt_dur_as(rs, nt), "max_signature_validity": "P21D",
                                            "min_signature_validity": "P21D", "max_validity_overlap": "P16D", "min_validity_overlap": "P9D", "ttl": 172800})
     emu.install(ceremony.token_with(list(KSKS.values())))
     p11 = init_pkcs11_modules(cfg)
@@ -250,7 +256,7 @@ class _Pinned(dt.datetime):
         return T0 + D(days=60)
 
 
-def ceremony_release(prev_name, new_name, ps, rs, existing, configured_prev=None):
+def ceremony_release(prev_name, new_name, ps, rs, existing, configured_prev=None, notation="days"):
     base_pol = ksrxml.default_zsk_policy(publish_safety=D(days=10), retire_safety=D(days=10))
     last = simulated(prev_name, "prev", T0, base_pol)
     zs = [[ZSKS[0], ZSKS[1]]] + [[ZSKS[1]]] * 7 + [[ZSKS[1], ZSKS[2]]]
@@ -278,7 +284,7 @@ def ceremony_release(prev_name, new_name, ps, rs, existing, configured_prev=None
                                    request_policy={"num_bundles": 9, "rsa_approved_key_sizes": [1024], "num_keys_per_bundle": [len(x) for x in zs],
                                                    "num_different_keys_in_all_bundles": len({k["pub"] for x in zs for k in x}), "check_cycle_length": False, "signature_horizon_days": 400},
                                    response_policy={"num_bundles": 9},
-                                   ksk_policy={"publish_safety": ksrxml.fmt_dur(ps), "retire_safety": ksrxml.fmt_dur(rs), "max_signature_validity": "P21D",
+                                   ksk_policy={"publish_safety": ksrxml.fmt_dur_as(ps, notation), "retire_safety": ksrxml.fmt_dur_as(rs, notation), "max_signature_validity": "P21D",
                                                "min_signature_validity": "P21D", "max_validity_overlap": "P16D", "min_validity_overlap": "P9D", "ttl": 172800},
                                    filenames=fnames)
         emu.install(ceremony.token_with(list(KSKS.values())))
@@ -304,9 +310,13 @@ OLDF = b"<the output of an earlier attempt/>\n"
 CER = [("normal", "normal", D(days=10), D(days=10)), ("publish+", "tool-drop@2", D(days=10), D(days=30)), ("normal", "cosign-third@1", D(days=10), D(days=10)),
        ("normal", "normal", D(days=200), D(days=10)), ("publish+", "rollover+", D(days=10), D(days=10)), ("normal", "drop-cur@1", D(days=10), D(days=10)),
        ("normal", "sign-revoke-drop@3", D(days=10), D(days=10)), ("publish+", "tool-drop@4", D(days=10), D(days=20))]
-for (a, b, ps, rs) in (CER if TIER == "quick" else CER + [(a, b, D(days=10), D(days=10)) for a in SCHEMAS for b in SCHEMAS]):
+# the configured periods written in other notations: eleven days is eleven days (a key dropped at day 10 is dropped too early), three weeks are 21 days
+CER += [("publish+", "tool-drop@2", D(days=10), D(days=11), "weeks"), ("publish+", "tool-drop@2", D(days=10), D(days=11), "hours"), ("publish+", "tool-drop@2", D(days=10), D(days=9), "weeks"),
+        ("publish+", "tool-drop@4", D(days=10), D(days=30), "weeks"), ("publish+", "tool-drop@4", D(days=10), D(days=21), "weeks"), ("normal", "normal", D(days=200), D(days=10), "weeks"),
+        ("publish+", "tool-drop@2", D(days=10), D(days=11), "days-hours"), ("publish+", "tool-drop@2", D(days=10), D(days=9, hours=23), "minutes")]
+for (a, b, ps, rs, *nt_) in (CER if TIER == "quick" else CER + [(a, b, D(days=10), D(days=10)) for a in SCHEMAS for b in SCHEMAS]):
     for existing in (None, OLDF):
-        r, after, want = ceremony_release(a, b, ps, rs, existing)
+        r, after, want = ceremony_release(a, b, ps, rs, existing, notation=nt_[0] if nt_ else "days")
         hist["ceremony-release"] = hist.get("ceremony-release", 0) + 1
         released = after is not None and after != existing
         hist["ceremony-released" if released else "ceremony-refused"] = hist.get("ceremony-released" if released else "ceremony-refused", 0) + 1
@@ -318,7 +328,7 @@ for (a, b, ps, rs) in (CER if TIER == "quick" else CER + [(a, b, D(days=10), D(d
         elif (r == ("ok", True)) != released:
             what = f"the run reported {r[1] if r[0] == 'ok' else r[2]} but the output path was {'written' if released else 'left alone'}"
         if what:
-            rep.violation("impl-vs-spec", f"ceremony {a} -> {b}, publish_safety={ps}, retire_safety={rs}: {what}",
+            rep.violation("impl-vs-spec", f"ceremony {a} -> {b}, publish_safety={ps}, retire_safety={rs} (configured as {ksrxml.fmt_dur_as(ps, nt_[0] if nt_ else 'days')} / {ksrxml.fmt_dur_as(rs, nt_[0] if nt_ else 'days')}): {what}",
                           {"kind": "ceremony-release", "prev_schema": a, "new_schema": b, "publish_safety": str(ps), "retire_safety": str(rs), "output_existed": existing is not None})
 
 # the previous SKR of a ceremony is the one named on the command line, whatever the configuration file also names
